@@ -782,6 +782,16 @@ func ruleErrFlow(rule string) ruleFn {
 					c.OK(rule, key+" | tolerated", c.P.InstrPos(in), "frozen exception: "+why, false)
 					return
 				}
+				// the same call made through a small interface of the caller's own (invoke) is the same
+				// exception: function and method name agree
+				cn := CalleeName(in)
+				mn := cn[strings.LastIndex(cn, ".")+1:]
+				for k, why := range errFlowAllowed {
+					if strings.HasPrefix(k, FnName(fn)+" | ") && strings.HasSuffix(k, "."+mn) && strings.HasPrefix(cn, "invoke:") {
+						c.OK(rule, key+" | tolerated", c.P.InstrPos(in), "frozen exception: "+why, false)
+						return
+					}
+				}
 				c.Bad(rule, key, c.P.InstrPos(in), "the error of this call is tested, but from its failure edge the function can still report success (error logged and lost / tested through a shadowed or wrong variable / missing return)", c.witness(ws[0]))
 			})
 		}
